@@ -407,7 +407,9 @@ func oracleDNS(t failer, sel uint8, frag uint16, name string, first, second []by
 	if len(name) > 300 {
 		name = name[:300]
 	}
-	desc := func() string { return fmt.Sprintf("sel=%#x frag=%#x name=%q first=%s second=%s", sel, frag, name, hexs(first), hexs(second)) }
+	desc := func() string {
+		return fmt.Sprintf("sel=%#x frag=%#x name=%q first=%s second=%s", sel, frag, name, hexs(first), hexs(second))
+	}
 	if sel&1 != 0 {
 		first, second = reframe(first), reframe(second)
 	}
